@@ -362,6 +362,8 @@ def render_vmodule(case, cx):
             return site_expr()
         if k == "assign":
             return it.get("x", "a") + " = " + (site_expr() if it["rhs"]["k"] == "site" else "$v(\"a2\")")
+        if k == "plain":
+            return "($out.p = 1)"
         if k == "arrow":
             return "() => " + item_expr(it["item"])
         if k == "arrowp":
